@@ -41,7 +41,7 @@ ROWS = {
        'hand-written and tied by a differential run (all 32 flag settings, every single-byte corruption of sampled replies; every single-byte corruption of plain and 1..3-fold wrapped replies through the real Rmcp)',
   tech='Lean 4 proof (byte-sum algebra, iff characterisation of the filter) + AST translator + differential correspondence'),
  'C04': dict(
-  text='34 Lean theorems over all event lists, budgets, quirks and histories - the socket\'s receive queue included - for '
+  text='40 Lean theorems over all event lists, budgets, quirks and histories - the socket\'s receive queue included - for '
        'RMCP, ipmb-dev and Aardvark (with is_ipmc_accessible): attribution through intact Send Message responses '
        'only; a CompletionCodeError only from the outstanding Send Message\'s own response; sequence numbers distinct '
        '(probes too); a match behind <= max_retries unrelated frames or time-outs is found for every request incl. '
@@ -51,7 +51,7 @@ ROWS = {
        'AST on every run and must equal the annotated functions the step models were written from (source_shape_*, '
        'source_facts); a moved, added, removed or changed statement stops these theorems from building. The loop '
        'models are tied by exhaustive orderings (length <= 4..6) over a frame alphabet on the real transports with '
-       'fake socket/fd/clock, and by two-thread schedules with one late reply.',
+       'fake socket/fd/clock, and by two-thread schedules with one late reply. Session operations are operations of the interface too: over any history of requests, establish_session (any prefix of its requests) and close_session the sequence counter is the start value plus the number of requests mod 64 (ops_counter_never_reset; the functions that store it are read from the source: source_state_writers), any two requests less than 64 apart differ (ops_seq_distinct) and no late reply to an earlier request is returned (ops_late_reply_never_returned).',
   note='translator harness/translate/loops04.py (syntax-directed AST printer + constant readers); hand-written step '
        'functions in Model/RmcpLoop.lean and IpmbDevLoop.lean whose source shape is generated and pinned '
        '(Model/LoopAst.lean, Loops.Shape.*) and whose behaviour is tied by the correspondence run; receive events are '
@@ -118,7 +118,7 @@ ROWS = {
  'C12': dict(
   text='Lean theorems for every log, partial-read limit and script of concurrent changes: entries are returned exactly, '
        'once each, in order; an empty log gives nothing; get-and-clear returns the entry that was deleted, deletes '
-       'under the reservation of the read and repeats both steps when the reservation is cancelled in between (get_and_clear_atomic for every budget without a fuel hypothesis; get_and_clear_repeats_both_steps: fewer changes than rounds and the record still present => success); the decoded SelEntry equals the view of IPMI tables 32-1..3 for system events (entry_view_system, entry_view_oem, entry_decoding_strict); a device that truncates instead of refusing is read exactly (truncating_device_read_exactly); 14 theorems.',
+       'under the reservation of the read and repeats both steps when the reservation is cancelled in between (get_and_clear_atomic for every budget without a fuel hypothesis; get_and_clear_repeats_both_steps: fewer changes than rounds and the record still present => success); the decoded SelEntry equals the view of IPMI tables 32-1..3 for system events (entry_view_system, entry_view_oem, entry_decoding_strict); a device that truncates instead of refusing is read exactly (truncating_device_read_exactly); behind ANY history of operations of any outcome on the same object a healthy device is read exactly (entries_exact_after_history, get_entry_exact_after_history, get_and_clear_after_history; the source keeps no state between calls: selStateless in source_variant); 17 theorems.',
   note='translator harness/translate/loops10.py (sel.py loops); reference device Spec/SelDevice.lean; tie by '
        'differential run (outcome, record bytes, request trace, final device state); every returned SelEntry judged attribute by attribute; one-object histories; variant (length floor, retry budget) read from the source and probed; OEM record attributes beyond data / id / type are not judged',
   tech='Lean 4 proof (refinement to the log as a list) + AST translator + differential correspondence against a reference device'),
@@ -216,7 +216,7 @@ ROWS = {
        'without a Python error" is checked per entry on the stub profiles (a Python error on a fault-free run is a violation), not proved; histories of 2..4 consecutive main() runs in one process with every option given in one run and absent in the next: each run must equal the same run alone in a new process',
   tech='Lean 4 proof (decide +kernel over generated table; lookup/getopt lemmas) + translator + differential correspondence (CLI vs API)'),
  'C07': dict(
-  text='100 Lean theorems about per-operation models of 76 pyipmi.Ipmi operations (device id/GUID/watchdog, chassis and '
+  text='102 Lean theorems about per-operation models of 76 pyipmi.Ipmi operations (device id/GUID/watchdog, chassis and '
        'boot options, LAN, users, sensors/events, PICMG LED/fan/port/power/activation, HPM status) played against a '
        'byte-level reference BMC: for ALL in-range arguments and ALL conforming BMC states every write leaves exactly '
        'the state the arguments denote and every read returns the BMC\'s current state for the addressed object '
